@@ -147,7 +147,7 @@ func rival(pool *casePool, w *hx.Op) *hx.Op {
 // c08InterleaveCase runs all interleavings of one case; false = the operation has no effect in its pre-state.
 func c08InterleaveCase(dir string, pool *casePool, ci int, dbNoP *int, c opCase) bool {
 	dbNo := *dbNoP
-	defer func() { *dbNoP = dbNo }()
+	defer func() { *dbNoP = dbNo; hx.Plan.Stmt = false }()
 	{
 		w := c.Target.Ops[0]
 		onFile := ci%4 == 0
@@ -209,9 +209,11 @@ func c08InterleaveCase(dir string, pool *casePool, ci int, dbNoP *int, c opCase)
 			if len(sum.Failures) > 0 {
 				return true
 			}
+			hx.Plan.Stmt = false
 			// the two sequential orders
 			var refs [2]ilOutcome
 			steps := int64(0)
+			refTrace := ""
 			for order := 0; order < 2; order++ {
 				dbNo++
 				x, err := ilOpen(dir, onFile, fmt.Sprintf("r%d", dbNo), c.Prefix)
@@ -223,6 +225,7 @@ func c08InterleaveCase(dir string, pool *casePool, ci int, dbNoP *int, c opCase)
 				if order == 0 {
 					hx.Plan.Arm(0, 0, false)
 					o.rw = runOpDB(x, w)
+					refTrace = strings.Join(hx.Plan.Trace, ",")
 					steps = hx.Plan.Disarm()
 					o.rx = ilRunX(x, xx)
 				} else {
@@ -233,7 +236,21 @@ func c08InterleaveCase(dir string, pool *casePool, ci int, dbNoP *int, c opCase)
 				refs[order] = o
 				x.Close()
 			}
-			for k := int64(1); k <= steps && len(sum.Failures) == 0; k++ {
+			// an operation that runs outside a transaction is also entered between the statements of
+			// each driver-level call (a script executed with one Exec)
+			stmtLevel := false
+			if !strings.Contains(refTrace, "begin") {
+				stmtLevel = true
+				hx.Plan.Stmt = true
+				dbNo++
+				if x, err := ilOpen(dir, onFile, fmt.Sprintf("s%d", dbNo), c.Prefix); err == nil {
+					hx.Plan.Arm(0, 0, false)
+					runOpDB(x, w)
+					steps = hx.Plan.Disarm()
+					x.Close()
+				}
+			}
+			for k := int64(1); k <= steps && k <= 40 && len(sum.Failures) == 0; k++ {
 				dbNo++
 				x, err := ilOpen(dir, onFile, fmt.Sprintf("i%d", dbNo), c.Prefix)
 				if err != nil {
@@ -284,6 +301,9 @@ func c08InterleaveCase(dir string, pool *casePool, ci int, dbNoP *int, c opCase)
 				got.content = ilContent(x)
 				sum.Cases++
 				count("interleavings")
+				if stmtLevel {
+					count("interleavings_at_statement_level")
+				}
 				if blocked.Load() {
 					count("second_caller_waited")
 				} else {
